@@ -684,6 +684,21 @@ func generate(repo, out string) error {
 		return err
 	}
 
+	// 4s. the sorter of internal/sort (Sort, Less, Swap, quickSort, doPivot, heapSort, …) as terms of QF.SL (sortast.go)
+	if err := writeIfChanged(filepath.Join(out, "SorterFns.lean"), []byte(sorterLean(repo))); err != nil {
+		return err
+	}
+
+	// 4t. the grouper hash table (newTable, grow, hash, insertEntry, equals, groupIndex, GroupBy, Distinct) as terms of QF.GL (grpast.go)
+	if err := writeIfChanged(filepath.Join(out, "GrouperFns.lean"), []byte(grouperLean(repo))); err != nil {
+		return err
+	}
+
+	// 4u. the CSV reader of internal/fastcsv as terms of QF.CR (csvast.go)
+	if err := writeIfChanged(filepath.Join(out, "CsvFns.lean"), []byte(csvFnsLean(repo))); err != nil {
+		return err
+	}
+
 	// 4m. the three writers of qframe.go (ToJSON, ToCSV, String) as terms of QF.JS / QF.CS / QF.PS (wast.go)
 	if err := writeIfChanged(filepath.Join(out, "Writers.lean"), []byte(writersLean(repo, root, strs))); err != nil {
 		return err
